@@ -158,14 +158,11 @@ func accesses(tm *t.Map, body []*a.Node, reads, writes map[t.ID]bool) {
 			switch n.Kind() {
 			case a.KAssign:
 				as := n.AsAssign()
-				expr(as.LHS(), true)
-				if as.Operator() != t.IDEq && as.Operator() != t.IDEqQuestion {
-					expr(as.LHS(), false) // compound assignment reads too
-				}
-				// index expressions on the left are reads
-				if x, idx, ok := as.LHS().IsIndex(); ok {
-					_ = x
-					expr(idx, false)
+				if as.LHS() != nil { // (an expression statement is an Assign without LHS)
+					expr(as.LHS(), true)
+					if as.Operator() != t.IDEq && as.Operator() != t.IDEqQuestion {
+						expr(as.LHS(), false) // compound assignment reads too
+					}
 				}
 				expr(as.RHS(), false)
 			case a.KIf:
